@@ -3963,6 +3963,12 @@ void Interpreter::register_destructor_call(
         }
     }
 
+    // a new object lives in this variable now (a member variable such as
+    // "a.r" keeps its slot when "a" is declared again in the same scope)
+    if (Variable *var = find_variable(var_name)) {
+        var->destructor_called = false;
+    }
+
     // 最後に自分自身を登録（これにより、メンバーが先に破壊される）
     destructor_stacks_.back().push_back(
         std::make_pair(var_name, struct_type_name));
